@@ -180,7 +180,7 @@ async fn run_history(name: &str, initial: &[(&'static str, &'static str)], hist:
         let mut w = world.lock().unwrap();
         w.rv += 1;
         let rv = w.rv;
-        w.objects.insert("zz-s0".to_string(), ("Ready".to_string(), rv, None));
+        w.objects.insert("00-s0".to_string(), ("Ready".to_string(), rv, None));
     }
     let server = tokio::spawn(serve(listener, world.clone()));
     let kubeconfig = format!(
@@ -202,7 +202,7 @@ async fn run_history(name: &str, initial: &[(&'static str, &'static str)], hist:
     };
     let mut expectations = vec![check("initial list".to_string(), &world)];
     let (label, want) = expectations.pop().unwrap();
-    let got = settle(&adapter, Some("zz-s0")).await;
+    let got = settle(&adapter, Some("00-s0")).await;
     if got != want {
         println!("REPRODUCED agones history {name}: after {label} discover() offers {got:?}, Ready/Allocated are {want:?}");
         found += 1;
@@ -230,7 +230,7 @@ async fn run_history(name: &str, initial: &[(&'static str, &'static str)], hist:
                 Ev::AddedLabeled(n, st, lv) => { w.objects.insert(n.to_string(), (st.to_string(), rv, Some(lv.to_string()))); let l = json!({"type": "ADDED", "object": gs(n, st, rv, &[("state", lv)])}).to_string(); w.pending.push(l); }
             }
         }
-        let sentinel = format!("zz-s{step}");
+        let sentinel = format!("00-s{step}");
         {
             let mut w = world.lock().unwrap();
             w.rv += 1;
@@ -280,6 +280,10 @@ pub fn histories(seed: u64) -> usize {
         ("relist-after-changes", vec![("gs-a", "Ready")], vec![Added("gs-b", "Ready"), VanishAndRelist("gs-a"), Modified("gs-b", "Allocated"), Relist, Deleted("gs-b")]),
         ("interrupted-relist", vec![("gs-a", "Ready"), ("gs-b", "Ready"), ("gs-c", "Allocated")], vec![InterruptedRelist("gs-a"), Modified("gs-b", "Shutdown")]),
         ("ipv6-address", vec![("gs-v6", "Ready")], vec![Added("gs-w6", "Allocated"), Modified("gs-v6", "Shutdown"), Modified("gs-v6", "Ready")]),
+        ("update-after-a-removal-in-the-middle", vec![("gs-a", "Ready"), ("gs-b", "Ready"), ("gs-c", "Ready"), ("gs-d", "Ready")],
+            vec![Modified("gs-a", "Shutdown"), Modified("gs-d", "Allocated"), Deleted("gs-d"), Modified("gs-c", "Allocated"), Deleted("gs-b"), Modified("gs-c", "Ready")]),
+        ("churn", vec![("gs-a", "Ready"), ("gs-b", "Ready"), ("gs-c", "Ready"), ("gs-d", "Ready"), ("gs-e", "Ready")],
+            vec![Deleted("gs-a"), Modified("gs-e", "Allocated"), Modified("gs-e", "Shutdown"), Deleted("gs-e"), Added("gs-z", "Ready"), Modified("gs-b", "Allocated"), Deleted("gs-c"), Modified("gs-z", "Allocated")]),
         ("label-named-state-hides-a-ready-server", vec![], vec![AddedLabeled("gs-a", "Ready", "blue")]),
         ("label-named-state-offers-a-stopped-server", vec![("gs-b", "Ready")], vec![AddedLabeled("gs-a", "Shutdown", "Ready")]),
     ];
@@ -289,33 +293,34 @@ pub fn histories(seed: u64) -> usize {
         found += rt.block_on(run_history(name, init, hist));
     }
     // seeded random histories over four names (one of them with an IPv6 address): every event is legal for the API server's state
-    // (ADDED only for an absent object, MODIFIED / DELETED only for a present one); 16 histories of 8 events
-    let names: [&'static str; 4] = ["gs-a", "gs-b", "gs-c", "gs-v6"];
+    // (ADDED only for an absent object, MODIFIED / DELETED only for a present one); 20 histories of 10 events (re-lists are rare among them: each costs the watcher's backoff)
+    let names: [&'static str; 6] = ["gs-a", "gs-b", "gs-c", "gs-d", "gs-m", "gs-v6"];
     let states: [&'static str; 6] = ["Ready", "Allocated", "Shutdown", "Scheduled", "Unhealthy", "Reserved"];
     let mut x = seed.wrapping_mul(0x9E3779B97F4A7C15) ^ 0xD1B54A32D192ED03 | 1;
     let mut rnd = move || { x ^= x << 13; x ^= x >> 7; x ^= x << 17; x };
     let mut random_count = 0;
-    for h in 0..16 {
+    for h in 0..20 {
         if found > 0 {
             break;
         }
         let mut present: Vec<&'static str> = vec![];
         let mut init: Vec<(&'static str, &'static str)> = vec![];
         for n in names {
-            if rnd() % 2 == 0 {
+            if rnd() % 3 != 0 {
                 init.push((n, states[(rnd() % 3) as usize]));
                 present.push(n);
             }
         }
         let mut hist: Vec<Ev> = vec![];
-        for _ in 0..8 {
-            let n = names[(rnd() % 4) as usize];
+        for _ in 0..10 {
+            let n = names[(rnd() % 6) as usize];
             let st = states[(rnd() % 6) as usize];
             let is_present = present.contains(&n);
-            let ev = match (rnd() % 10, is_present) {
+            let ev = match (rnd() % 40, is_present) {
                 (0, _) => Relist,
                 (1, true) => { present.retain(|p| *p != n); VanishAndRelist(n) }
                 (2, true) => { present.retain(|p| *p != n); InterruptedRelist(n) }
+                (5..=12, true) => { present.retain(|p| *p != n); Deleted(n) }
                 (3, true) => { present.retain(|p| *p != n); Deleted(n) }
                 (4, true) => { present.retain(|p| *p != n); ModifiedNoPorts(n, st) }
                 (_, true) => Modified(n, st),
